@@ -538,8 +538,6 @@ Proof.
   - cbn [top]. eapply plug_good; eauto. discriminate.
 Qed.
 
-Ltac rw_all := repeat match goal with H : _ = _ |- _ => rewrite H end.
-
 Ltac norr :=
   rewrite ?norr_T; repeat match goal with |- _ /\ _ => split end;
   try (let E := fresh in intros E; discriminate E); try (intros _; split);
